@@ -95,7 +95,7 @@ func (n *Net) liar(addr string) *LieSpec {
 }
 
 // lieStream produces the scripted stream for a request starting at `from`.
-func (n *Net) lieStream(ctx context.Context, spec *LieSpec, from uint64) (chan *proto.BeaconPacket, error) {
+func (n *Net) lieStream(ctx context.Context, spec *LieSpec, from uint64, requester string) (chan *proto.BeaconPacket, error) {
 	if spec.Kind == LieRefuse {
 		return nil, errors.New("sync refused (scripted peer)")
 	}
@@ -162,6 +162,7 @@ func (n *Net) lieStream(ctx context.Context, spec *LieSpec, from uint64) (chan *
 	go func() {
 		defer close(ch)
 		for _, b := range seq {
+			n.noteSyncDelivery(requester, b.GetRound())
 			select {
 			case <-ctx.Done():
 				return
